@@ -20,7 +20,7 @@ PROPERTY = "C16"
 LEVEL = "exploration"
 NEED_EXT = False
 REQUIRED = ["enumerate", "str", "debug.outputs_unchanged", "debug.records", "debug.chain", "debug.copy_history", "debug.after_refused_predict",
-            "debug.refused_alter.refused", "dot.parsed",
+            "debug.refused_alter.refused", "debug.text_pipeline", "dot.parsed",
             "dot.reachability"]
 RULE = ("pipelines drawn from the grammar with depth <= 3 (thorough 4), width <= 3, over DataFrame / ndarray / "
         "list-of-names schemas; only programs scikit-learn itself fits are in the domain; non-trivial = >= 3 estimators with a "
@@ -40,7 +40,76 @@ def cases(tier, seed):
     out = [{"gen": "pipe", "id": "pipe-%d" % i, "sub": seed * 1000003 + i, "tier": tier} for i in range(n)]
     out += [{"gen": "refused-alter", "id": "refused-alter-%d" % i, "sub": seed * 1000003 + 700000 + i, "tier": tier}
             for i in range(24 if tier == "quick" else 200)]
+    out += [{"gen": "text", "id": "text-%d" % i, "sub": seed * 1000003 + 800000 + i, "tier": tier}
+            for i in range(12 if tier == "quick" else 100)]
     return out
+
+
+def run_text(case, ctx):
+    """Pipelines whose first step reads documents (its data parameter is called raw_documents, not X) and whose input
+    may be a one-shot iterator: altering them for debugging leaves every output unchanged, records chain."""
+    from sklearn.feature_extraction.text import CountVectorizer, TfidfTransformer, TfidfVectorizer
+    from sklearn.linear_model import LogisticRegression
+    from sklearn.naive_bayes import MultinomialNB
+    from sklearn.pipeline import Pipeline
+    from sklearn.decomposition import TruncatedSVD
+    from mlinsights.helpers.pipeline import alter_pipeline_for_debugging
+    rng = numpy.random.RandomState(case["sub"] % (2 ** 31))
+    words = ["aa", "bb", "cc", "dd", "the", "cat", "dog", "zz"]
+    docs = [" ".join(words[rng.randint(len(words))] for _ in range(int(rng.randint(2, 7)))) for _ in range(int(rng.randint(8, 16)))]
+    y = numpy.array([i % 2 for i in range(len(docs))])
+    shape = ["count-tfidf-logreg", "tfidf-nb", "count-svd", "tfidf-svd-logreg"][case["sub"] % 4]
+    if shape == "count-tfidf-logreg":
+        pipe = Pipeline([("cv", CountVectorizer()), ("tf", TfidfTransformer()), ("lr", LogisticRegression())])
+    elif shape == "tfidf-nb":
+        pipe = Pipeline([("tv", TfidfVectorizer(ngram_range=(1, 2))), ("nb", MultinomialNB())])
+    elif shape == "count-svd":
+        pipe = Pipeline([("cv", CountVectorizer()), ("svd", TruncatedSVD(n_components=2, random_state=0))])
+    else:
+        pipe = Pipeline([("tv", TfidfVectorizer()), ("svd", TruncatedSVD(n_components=2, random_state=0)),
+                         ("lr", LogisticRegression())])
+    cfg = {"shape": shape, "n_docs": len(docs)}
+    pipe.fit(docs, y)
+    methods = [m for m in ("predict", "predict_proba", "decision_function", "transform") if hasattr(pipe, m)]
+    batch = docs[:6] + ["aa zz zz", "never seen words"]
+    before = {m: numpy.asarray(getattr(pipe, m)(list(batch))) for m in methods}
+    try:
+        alter_pipeline_for_debugging(pipe)
+    except Exception as e:
+        ctx.violation("C16/debug/alter-raised/%s/text-pipeline" % type(e).__name__, str(e)[:150], cfg=cfg)
+        return
+    for m in methods:
+        for cname, mk in (("list", lambda: list(batch)), ("tuple", lambda: tuple(batch)),
+                          ("generator", lambda: (d_ for d_ in batch)), ("iterator", lambda: iter(batch))):
+            try:
+                got = numpy.asarray(getattr(pipe, m)(mk()))
+            except Exception as e:
+                ctx.violation("C16/debug/raised-after-alter/%s/text-pipeline/%s" % (type(e).__name__, cname),
+                              "%s on documents given as a %s raises after the alteration: %s" % (m, cname, str(e)[:120]),
+                              cfg=cfg)
+                continue
+            ctx.hit("debug.text_pipeline")
+            if got.shape != before[m].shape or not numpy.allclose(got, before[m], rtol=0, atol=0):
+                ctx.violation("C16/debug/output-changed/text-pipeline/%s" % cname, "%s on documents given as a %s differs "
+                              "after alter_pipeline_for_debugging (shape %r, before %r)" % (m, cname, got.shape,
+                                                                                         before[m].shape), cfg=cfg)
+        # the steps chain on the last call: output recorded for step i is the input recorded for step i + 1
+        steps = [s_ for _, s_ in pipe.steps]
+        for a_, b_ in zip(steps[:-1], steps[1:]):
+            da, db = getattr(a_, "_debug", None), getattr(b_, "_debug", None)
+            if da is None or db is None or "transform" not in da.outputs:
+                ctx.violation("C16/debug/step-without-record/text-pipeline", "a step of the text pipeline has no record after "
+                              "%s" % m, cfg=cfg)
+                break
+            mb = m if b_ is steps[-1] and m in db.inputs else "transform"
+            oa, ib = da.outputs["transform"], db.inputs.get(mb)
+            same = ib is oa or (hasattr(oa, "toarray") and hasattr(ib, "toarray") and (oa != ib).nnz == 0) or (
+                not hasattr(oa, "toarray") and ib is not None and numpy.array_equal(numpy.asarray(oa), numpy.asarray(ib)))
+            if not same:
+                ctx.violation("C16/debug/steps-do-not-chain/text-pipeline", "after %s the input recorded for %s is not the "
+                              "output recorded for %s" % (m, type(b_).__name__, type(a_).__name__), cfg=cfg)
+                break
+    ctx.cls("text-pipeline=" + shape)
 
 
 def run_refused_alter(case, ctx):
@@ -348,6 +417,8 @@ class Dot:
 def run_case(case, ctx):
     if case["gen"] == "refused-alter":
         return run_refused_alter(case, ctx)
+    if case["gen"] == "text":
+        return run_text(case, ctx)
     from sklearn.base import clone
     from sklearn.pipeline import Pipeline, FeatureUnion
     from sklearn.compose import ColumnTransformer
